@@ -71,9 +71,15 @@ pub(crate) struct DropAll(Weak<GuardInner>);
 impl Drop for DropAll {
     fn drop(&mut self) {
         if let Some(guard) = self.0.upgrade() {
+            #[cfg(metrique_verif)]
+            crate::verif::sync_point("dropall.upgraded");
             if let Some(f) = guard.lock().unwrap().take() {
+                #[cfg(metrique_verif)]
+                crate::verif::sync_point("dropall.taken");
                 (f)()
             }
+            #[cfg(metrique_verif)]
+            crate::verif::sync_point("dropall.unlocked");
         }
     }
 }
